@@ -19,7 +19,10 @@ from harness.render import render
 
 CONST = "CONSTANTS\n  P <- RecP\n  Keys <- RecKeys\n  Univ <- RecUniv\n  Prsv0 <- RecPrsv\n  Edge0 <- RecEdge\n"
 CFG_T = "INIT TInit\nNEXT TNext\nINVARIANT Report\nCHECK_DEADLOCK FALSE\n" + CONST
-CFG_A = "INIT AInit\nNEXT ANext\nVIEW AView\nINVARIANT Confluent\nCHECK_DEADLOCK FALSE\n" + CONST
+DESIGN_INV = ["Bounded", "FwdFix", "BwdFix", "BwdInFwd"]
+DESIGN_ACT = ["Ascending", "Progress"]
+CFG_A = ("INIT AInit\nNEXT ANext\nVIEW AView\nINVARIANT Confluent\n" + "".join("INVARIANT %s\n" % i for i in DESIGN_INV)
+         + "".join("PROPERTY %s\n" % i for i in DESIGN_ACT) + "CHECK_DEADLOCK FALSE\n" + CONST)
 SIZES = {"quick": {"layout": 14, "f1": 4, "f3": 2}, "thorough": {"layout": 200, "f1": 80, "f2": 40, "f3": 40}}
 POOL = {"layout": 150, "f1": 500, "f2": 250, "f3": 120}
 POOL_T = {"layout": 2000, "f1": 6000, "f2": 3000, "f3": 1200}
@@ -61,6 +64,10 @@ def _any(path):
     if "Invariant Confluent is violated" in r["stdout"]:
         tail = [l for l in r["stdout"].splitlines() if l.startswith("/\\ ") or l.startswith("State ")][-40:]
         return {"done": True, "confluent": False, "states": r["distinct"], "transitions": r["states"], "cex": tail}
+    for nm in DESIGN_INV + DESIGN_ACT:
+        if ("Invariant %s is violated" % nm) in r["stdout"] or ("Action property %s is violated" % nm) in r["stdout"]:
+            tail = [l for l in r["stdout"].splitlines() if l.startswith("/\\ ") or l.startswith("State ")][-40:]
+            return {"done": True, "confluent": None, "design": nm, "states": r["distinct"], "transitions": r["states"], "cex": tail}
     raise fw.Machinery("SolverAny failed on %s:\n%s" % (path, r.get("error_tail", "")[-1500:]))
 
 
@@ -149,6 +156,8 @@ def run_solver(tier, seed):
            "all_orders_checked": len([a for a in anys if a["done"]]),
            "all_orders_states": sum(a["states"] for a in anys),
            "all_orders_skipped": len([a for a in anys if not a["done"]]),
+           "design_held": len([a for a in anys if a["done"] and a.get("confluent") is True]),
+           "design_broken": sorted({a["design"] for a in anys if a.get("design")}),
            "corrupted_rejected": len(cjobs), "analysis_failed": failed[:5], "n_failed": len(failed),
            "with_subroutines": len([j for j in jobs if "callsub" in j["text"]]),
            "max_blocks": max(j["blocks"] for j in jobs)}
@@ -184,20 +193,27 @@ def collect(prop, tier, seed):
                                                         "trace": o["trace"]})
         print("CONFORMANCE-DRIFT property=%s analysis=%s: the recorded run of the dataflow engine is not a behaviour of "
               "Solver.tla (%s); the all-orders result is not claimed for this program" % (prop, o["analysis"], path))
+    for o in [o for o in r["out"] if o["accepted"] and o["any"].get("design")][:5]:
+        print("ENGINE-DESIGN-NOTE property=%s analysis=%s: under some worklist order the engine described by Solver.tla breaks the "
+              "design property %s (not a listed property; the all-orders result is not claimed for this program)"
+              % (prop, o["analysis"], o["any"]["design"]))
     if tot["traces"] == 0 or tot["with_subroutines"] == 0 or (tot["all_orders_checked"] == 0 and not drift):
         raise fw.Machinery("vacuous: no trace / no program with subroutines / no all-orders run: %s" % tot)
     cov = {"states": tot["states"], "transitions": tot["transitions"], "traces_validated_against_impl": tot["traces"],
            "evaluations": tot["traces"], "distinct_nontrivial": tot["with_subroutines"],
            "traces_accepted": tot["accepted"], "conformance_drift": len(drift), "events_validated": tot["events"],
            "all_orders_model_checked": tot["all_orders_checked"], "all_orders_distinct_states": tot["all_orders_states"],
-           "all_orders_skipped_too_large": tot["all_orders_skipped"], "corrupted_traces_rejected": tot["corrupted_rejected"],
+           "all_orders_skipped_too_large": tot["all_orders_skipped"],
+           "engine_design_properties_held_on": tot.get("design_held", 0), "engine_design_properties_broken": tot.get("design_broken", []), "corrupted_traces_rejected": tot["corrupted_rejected"],
            "programs_the_tool_could_not_analyse": tot["n_failed"], "largest_graph_blocks": tot["max_blocks"],
            "rule": "SolverTrace.tla / SolverAny.tla: for programs of layout/f1/f2/f3 the runs of the real forward/backward "
                    "worklist engine (GroupIndices and TxnType, base keys; TEALER_VERIF hooks) are validated event by event "
                    "against Solver.tla (FIFO pop, value written = the specification's equation on the current state, blocks "
                    "re-queued = the specified dependents), %d corrupted copies must be rejected, and for graphs of at most %d "
                    "blocks TLC explores EVERY worklist order on the recorded graph and constraints and checks that all end "
-                   "with the recorded result; non-trivial = traces of programs with subroutines"
+                   "with the recorded result (Confluent) and, on every transition of every order, the engine's design properties "
+                   "Ascending, Progress (well-founded measure: every order terminates), Bounded, FwdFix / BwdFix (an empty worklist "
+                   "means a fixpoint: the re-queueing relation covers every dependency) and BwdInFwd; non-trivial = traces of programs with subroutines"
                    % (tot["corrupted_rejected"], MAX_ANY_BLOCKS),
            "samples": [{"teal": o["text"], "analysis": o["analysis"], "events": o["events"]} for o in r["out"][:1]]}
 
